@@ -23,11 +23,16 @@ IS, SS, BS = z3.IntSort(), z3.StringSort(), z3.BoolSort()
 Cnt = z3.Function('Cnt', IS, SS, IS)          # multiplicity of a name in version ver of a multiset/counter
 InKeys = z3.Function('InKeys', IS, SS, BS)    # key present in version ver of the counter dict
 Dec = z3.Function('Dec', IS, SS)              # '%d' % n
-IsDigits = z3.Function('IsDigits', SS, BS)    # str.isdigit()
+IsDecimal = z3.Function('IsDecimal', SS, BS)   # str.isdecimal(): non-empty, every character a decimal digit -- exactly the strings int() converts; the SPEC's notion of a repeat count
+IsDigitish = z3.Function('IsDigitish', SS, BS)  # str.isdigit(): a superset (superscripts, circled digits ... are digits but not decimals: int('\u00b2') raises ValueError)
+MAX_INT_DIGITS = 4300                          # CPython converts at most this many digits (sys.get_int_max_str_digits())
 IntOf = z3.Function('IntOf', SS, IS)          # int(s) for a digit string
 TRUSTED = ["re.split('[()]', text): text = csg + pieces '(' name ')' [digits] splits into [csg] + tokens (assumed; exercised by the stand-in)",
            "'%d' % n is the decimal numeral Dec(n): non-empty, all digits, int(Dec(n)) == n; peripheral names are non-empty, contain no "
-           "parenthesis and are not all digits (wfname precondition)"]
+           "parenthesis and are not all decimal digits (wfname precondition)",
+           "int(s) raises ValueError exactly when s is not a string of decimal digits (str.isdecimal; str.isdigit is a superset) or is longer than 4300 digits; "
+           "Group.parse is verified for names whose repeat counts have at most 4300 digits (domain restriction: a longer count is a ValueError from int(), "
+           "and a count of that magnitude cannot be expanded into a list)"]
 
 ListCls = BuiltinClass('NameList')
 CounterCls = BuiltinClass('NameCounter')
@@ -90,11 +95,16 @@ class W(World):
 
     def str_class_hook(self, I, v, name):
         if name == 'isdigit':
-            return IsDigits(v)
+            I.ctx.assume(z3.Implies(IsDecimal(v), IsDigitish(v)))
+            return IsDigitish(v)
+        if name == 'isdecimal':
+            return IsDecimal(v)
         raise Unsupported('str.%s' % name)
 
     def int_of_str(self, I, s):
-        if I.ctx.branch(z3.Not(IsDigits(s))):
+        # int(s) for a string without sign, blanks or underscores: ValueError unless every character is a DECIMAL digit (isdigit() is not enough)
+        # and, in CPython >= 3.11, unless there are at most 4300 of them
+        if I.ctx.branch(z3.Or(z3.Not(IsDecimal(s)), z3.Length(s) > MAX_INT_DIGITS)):
             raise I.exc('ValueError', 'invalid literal for int()')
         return IntOf(s)
 
@@ -272,8 +282,8 @@ XName = z3.Function('XName', IS, SS)         # spec: the pending name
 def delta_axioms(j, s):
     t = Tok(j)
     empty = t == z3.StringVal('')
-    dig = z3.And(z3.Not(empty), IsDigits(t))
-    name = z3.And(z3.Not(empty), z3.Not(IsDigits(t)))
+    dig = z3.And(z3.Not(empty), IsDecimal(t))
+    name = z3.And(z3.Not(empty), z3.Not(IsDecimal(t)))
     return [
         z3.Implies(empty, z3.And(XM(j + 1, s) == XM(j, s), XPend(j + 1) == XPend(j), XName(j + 1) == XName(j))),
         z3.Implies(z3.And(dig, XPend(j)), z3.And(XM(j + 1, s) == XM(j, s) + z3.If(s == XName(j), z3.If(IntOf(t) >= 0, IntOf(t), 0), 0),
@@ -300,6 +310,8 @@ def u_parse(I):
     nt = n - 1
     for ax in delta_axioms(j_, s_):
         ctx.assume_forall([j_, s_], z3.Implies(z3.And(0 <= j_, j_ < nt), ax), 'Expand step')
+    # domain: a repeat count has at most 4300 digits (CPython's int() refuses longer ones with ValueError; a count of that size could not be expanded anyway)
+    ctx.assume_forall([j_], z3.Implies(IsDecimal(Tok(j_)), z3.Length(Tok(j_)) <= MAX_INT_DIGITS), 'repeat counts are convertible')
     holder = {}
     lst0 = {}
 
@@ -379,7 +391,7 @@ def u_parse(I):
     # spec: a digit token with no pending name is a syntax error
     if out.kind == 'raise':
         j = z3.Int('j_tokens')
-        check_outcome(I, out, raises={'GroupSyntaxError': z3.And(IsDigits(Tok(j)), Tok(j) != z3.StringVal(''), z3.Not(XPend(j)))})
+        check_outcome(I, out, raises={'GroupSyntaxError': z3.And(IsDecimal(Tok(j)), Tok(j) != z3.StringVal(''), z3.Not(XPend(j)))})
         return {'inputs': {}}
 
     def posts(r):
@@ -411,9 +423,9 @@ def u_lemma_roundtrip(I):
     p0 = I.fresh('pending0', 'bool')
     pn0 = I.fresh('pname0', 'str')
     # wfname and the numeral contract
-    ctx.assume(z3.And(nm != z3.StringVal(''), z3.Not(IsDigits(nm)), c >= 1))
-    ctx.assume(z3.And(Dec(c) != z3.StringVal(''), IsDigits(Dec(c)), IntOf(Dec(c)) == c))
-    ctx.assume(z3.Not(IsDigits(z3.StringVal(''))))
+    ctx.assume(z3.And(nm != z3.StringVal(''), z3.Not(IsDecimal(nm)), c >= 1))
+    ctx.assume(z3.And(Dec(c) != z3.StringVal(''), IsDecimal(Dec(c)), IntOf(Dec(c)) == c))
+    ctx.assume(z3.Not(IsDecimal(z3.StringVal(''))))
     inv0 = M0(s) + z3.If(z3.And(p0, s == pn0), 1, 0) == E0(s)
     ctx.assume(inv0)
     # token 1: the name
@@ -547,6 +559,20 @@ def standin_groups(tier, seed):
             viol.append({'id': 'collision-' + nm, 'input': [list(seen[nm][1]), list(ms)], 'observed': 'same canonical name ' + nm, 'expected': 'different groups'})
         seen[nm] = (csg, ms)
     # malformed: a count with no name
+    # digits that are not decimals (superscript two, circled one: str.isdigit() is true for them, int() refuses them): a malformed name is either a
+    # syntax error or read as some group -- never another exception
+    for odd in ['C(H)\u00b2', 'C(H)(\u00b2)', 'C(\u2460)', 'C(H)\u00b2(C)', 'C(H)\u0663']:
+        n += 1
+        from pgradd.Error import GroupSyntaxError
+        try:
+            g_ = Group.parse(None, odd)
+            if Group.parse(None, g_.name) != g_:
+                viol.append({'id': 'odd-digit-' + odd, 'input': odd, 'observed': 'read as %s, whose name reads as another group' % g_.name, 'expected': 'a group whose name parses back to it'})
+        except GroupSyntaxError:
+            pass
+        except Exception as e:     # noqa
+            viol.append({'id': 'odd-digit-' + odd, 'input': odd, 'observed': type(e).__name__, 'expected': 'GroupSyntaxError or a group',
+                         'script': "from pgradd.GroupAdd.Group import Group\nGroup.parse(None, %r)\n" % odd})
     for bad in ['C(3)', 'C()2', 'C(H)2 3'.replace(' ', ')(')]:
         n += 1
         from pgradd.Error import GroupSyntaxError
